@@ -436,7 +436,7 @@ def gen_fn(fn, g, probe_labels, unit_name):
                 out.append((l, {"kind": "body"}))
     info = {
         "key": fn.key, "unit": unit_name, "file": fn.file, "lines": [line0, line1], "sha256": sha,
-        "mode": fn.mode, "props": fn.props, "name": fn.name, "impl": fn.impl,
+        "mode": fn.mode, "props": fn.props, "name": getattr(fn, "gen_name", None) or fn.name, "impl": fn.impl,
         "orig_text": text,
     }
     return out, info
@@ -578,9 +578,10 @@ def generate(unit, probe_labels=frozenset()):
                     tw_out, tw_info = gen_fn(it, g2, (probe_labels - {"negate:ensures"}) | {"negate:this"}, unit.name)
                     renamed = []
                     done = False
+                    nm = getattr(it, "gen_name", None) or it.name
                     for (t, reg) in tw_out:
-                        if not done and reg is not None and reg.get("kind") == "sig" and re.search(r"\bfn\s+" + re.escape(it.name) + r"\b", t):
-                            t = re.sub(r"\bfn\s+" + re.escape(it.name) + r"\b", "fn " + it.name + "__twin", t, count=1)
+                        if not done and reg is not None and reg.get("kind") == "sig" and re.search(r"\bfn\s+" + re.escape(nm) + r"\b", t):
+                            t = re.sub(r"\bfn\s+" + re.escape(nm) + r"\b", "fn " + nm + "__twin", t, count=1)
                             done = True
                         r2 = dict(reg) if reg is not None else None
                         if r2 is not None:
